@@ -22,7 +22,11 @@ static unsigned char keymd5[MAXK + 1][16];
 static const int lenmap[3][4] = {{0, 1, 33, 99}, {0, 20, 60, 130}, {0, 32, 98, 164}};
 #define D1 Q_HASHARR_DATASIZE
 #define D2 ((int) sizeof(struct Q_HASHARR_SLOT_KEYVAL))
-static unsigned char vbyte(int vid, int off) { return (unsigned char) ((vid * 97 + off * 7 + 3) % 251); }
+static unsigned char vbyte(int vid, int off) {
+    if (vid >= 3 && off < 5) return (unsigned char) ((1 * 97 + off * 7 + 3) % 251);      /* values 3, 4: as value 1 up to ... */
+    if (vid >= 3 && off == 5) return 0;                                                  /* ... an embedded NUL */
+    return (unsigned char) ((vid * 97 + off * 7 + 3) % 251);
+}
 static void mkval(unsigned char *b, int vid, int len) { for (int j = 0; j < len; j++) b[j] = vbyte(vid, j); }
 static int valid_of(const unsigned char *d, size_t sz) {
     if (!d) return 0;
